@@ -2,7 +2,6 @@
 
 extern crate alloc;
 
-use alloc::boxed::Box;
 use alloc::string::ToString;
 use alloc::vec::Vec;
 use core::ffi::c_char;
@@ -40,14 +39,31 @@ pub extern "C" fn tsrun_fulfill_orders(
         return TsRunResult::err(ctx, "NULL responses array".to_string());
     }
 
+    for i in 0..count {
+        let resp = unsafe { &*responses.add(i) };
+        if let Some(val) = unsafe { resp.value.as_ref() }
+            && !ctx.owns(val)
+        {
+            return TsRunResult::err(ctx, "Value belongs to another context".to_string());
+        }
+    }
+
     // Convert C responses to Rust
     let rust_responses: Vec<OrderResponse> = (0..count)
         .map(|i| unsafe {
             let resp = &*responses.add(i);
             let result = if resp.error.is_null() {
-                // Success case
+                // Success case: the response keeps its object alive on its own - the host
+                // may release its handle right after this call, before the script reads it
                 if let Some(val) = resp.value.as_ref() {
-                    Ok(RuntimeValue::unguarded(val.value().clone()))
+                    let value = val.value().clone();
+                    if let JsValue::Object(ref obj) = value {
+                        let guard = ctx.interp.heap.create_guard();
+                        guard.guard(obj.cheap_clone());
+                        Ok(RuntimeValue::with_guard(value, guard))
+                    } else {
+                        Ok(RuntimeValue::unguarded(value))
+                    }
                 } else {
                     Ok(RuntimeValue::unguarded(JsValue::Undefined))
                 }
@@ -133,9 +149,7 @@ pub extern "C" fn tsrun_create_pending_order(
     let marker = marker_guard.alloc();
     marker.borrow_mut().exotic = crate::value::ExoticObject::PendingOrder { id: id.0 };
 
-    TsRunValueResult::ok(Box::new(TsRunValue {
-        inner: RuntimeValue::with_guard(JsValue::Object(marker), marker_guard),
-    }))
+    TsRunValueResult::ok(TsRunValue::from_runtime_value(RuntimeValue::with_guard(JsValue::Object(marker), marker_guard)))
 }
 
 // ============================================================================
@@ -185,6 +199,9 @@ pub extern "C" fn tsrun_resolve_promise(
         Some(v) => v,
         None => return TsRunResult::err(ctx, "NULL promise".to_string()),
     };
+    if !ctx.owns(promise_val) {
+        return TsRunResult::err(ctx, "Value belongs to another context".to_string());
+    }
 
     let value_val = match unsafe { value.as_ref() } {
         Some(v) => RuntimeValue::unguarded(v.value().clone()),
@@ -219,6 +236,9 @@ pub extern "C" fn tsrun_reject_promise(
         Some(v) => v,
         None => return TsRunResult::err(ctx, "NULL promise".to_string()),
     };
+    if !ctx.owns(promise_val) {
+        return TsRunResult::err(ctx, "Value belongs to another context".to_string());
+    }
 
     let error_str = unsafe { c_str_to_str(error) }.unwrap_or("Unknown error");
 
